@@ -1,5 +1,6 @@
 (** C03 — property theorems on the memo-cell kernel. *)
 From Coq Require Import List Arith Bool.
+From JrV Require Sem.Syntax Sem.Interp Sem.Mono.
 From JrV Require Import C03.Model C03.Proofs.
 Import ListNotations.
 
@@ -39,3 +40,12 @@ Theorem C03_reentrant_is_infinite_recursion :
     nth_error st c = Some Pending -> force (S fuel) b c st log = (INFREC, st, log).
 Proof. exact reentrant_is_infrec. Qed.
 Print Assumptions C03_reentrant_is_infinite_recursion.
+
+(** the call-by-need SPEC for whole programs is Sem's trace log: which labelled sub-expressions run, and
+    how often, is a function of the program alone (not of the fuel), whenever the program is judged *)
+Theorem C03_sem_log_fuel_independent :
+  forall n m e, n <= m ->
+    fst (JrV.Sem.Interp.run n e) <> JrV.Sem.Interp.OErr JrV.Sem.Interp.KFuel ->
+    snd (JrV.Sem.Interp.run m e) = snd (JrV.Sem.Interp.run n e).
+Proof. intros n m e H1 H2. rewrite (JrV.Sem.Mono.run_fuel_independent n m e H1 H2). reflexivity. Qed.
+Print Assumptions C03_sem_log_fuel_independent.
